@@ -179,9 +179,8 @@ Proof.
   - (* ImportToLocal *)
     destruct (nthN (m_imports m) k) as [im|]; [|discriminate].
     destruct (negb (N.eqb (i_sp im) 0)); [discriminate|].
-    destruct (nthN (s_items (m_f m)) k) as [it|]; [|discriminate].
-    destruct (is_local it); [inversion H; subst; exact Hinv|].
-    destruct (delete_in m SF k) as [m1|] eqn:E; [|discriminate].
+    destruct (find_imp (s_items (m_f m)) k 0) as [p|]; [|inversion H; subst; exact Hinv].
+    destruct (delete_in m SF p) as [m1|] eqn:E; [|discriminate].
     pose proof (delete_in_inv _ _ _ _ E Hinv) as (Hf1 & Hg1 & Hm1).
     inversion H; subst; clear H. cbn. (split; [|split]); try assumption.
     apply inv_upd; auto.
@@ -555,9 +554,8 @@ Proof.
     unfold push_import in H. cbn in H. inversion H; subst. cbn. exact (delete_in_g _ _ _ _ E).
   - destruct (nthN (m_imports m) k) as [im|]; [|discriminate].
     destruct (negb (N.eqb (i_sp im) 0)); [discriminate|].
-    destruct (nthN (s_items (m_f m)) k) as [it|]; [|discriminate].
-    destruct (is_local it); [inversion H; subst; apply g_stable_refl|].
-    destruct (delete_in m SF k) as [m1|] eqn:E; [|discriminate].
+    destruct (find_imp (s_items (m_f m)) k 0) as [p|]; [|inversion H; subst; apply g_stable_refl].
+    destruct (delete_in m SF p) as [m1|] eqn:E; [|discriminate].
     inversion H; subst. cbn. exact (delete_in_g _ _ _ _ E).
   - inversion H; subst. cbn. apply g_stable_app.
   - inversion H; subst. apply g_stable_refl.
